@@ -858,6 +858,13 @@ def str_eq(it, x, y):
         return x == y
     if isinstance(x, SymStr) and isinstance(y, SymStr) and x == y:
         return True
+    if isinstance(x, (str, SymStr)) and isinstance(y, (str, SymStr)):
+        # an abstract string against another string: a decision of the solver, asked once per pair on a path and named after the question
+        a_, b_ = (x, y) if isinstance(x, SymStr) else (y, x)
+        key = ('eq', repr(a_), repr(b_))
+        if key not in it.strpred:
+            it.strpred[key] = it.fresh(f'strpred|eq|{a_!r}|{b_!r}|', 'bool')
+        return it.truth(it.strpred[key])
     raise Unsupported(f'equality of abstract strings {x!r} / {y!r}')
 
 
@@ -891,6 +898,8 @@ def m_to_uppercase(it, n, a):
     s = arg0(a)
     if isinstance(s, str):
         return s.upper()
+    if isinstance(s, SymStr):
+        return SymStr([('sym', f'to_uppercase({s!r})')])
     raise Unsupported('to_uppercase of abstract string')
 
 
@@ -1201,7 +1210,11 @@ def m_hs_new(it, n, a):
     return HashSetV()
 
 
-def hs_contains(s, x):
+def hs_contains(s, x, it=None):
+    xv = deref(x)
+    if it is not None and (isinstance(xv, (Agg, str, SymStr, VecV)) or any(isinstance(e, (Agg, str, SymStr, VecV)) for e in s.items)):
+        # members with structure (Option<&str>, tuples, strings ...): derived Eq, decided member by member (forks where symbolic)
+        return any(deep_eq(it, xv, e) for e in s.items)
     cs = [h_eq(x, e) for e in s.items]
     if any(c is True for c in cs):
         return True
@@ -1214,7 +1227,7 @@ def hs_contains(s, x):
 @model(r'^HashSet::<.*>::insert$')
 def m_hs_insert(it, n, a):
     s = arg0(a)
-    had = hs_contains(s, a[1])
+    had = hs_contains(s, a[1], it)
     if had is True:
         return False
     s.items.append(deref(a[1]))
@@ -1223,7 +1236,7 @@ def m_hs_insert(it, n, a):
 
 @model(r'^HashSet::<.*>::contains::<')
 def m_hs_contains(it, n, a):
-    return hs_contains(arg0(a), a[1])
+    return hs_contains(arg0(a), a[1], it)
 
 
 def hs_distinct(it, s):
@@ -1322,6 +1335,23 @@ def m_arena_index(it, n, a):
     arena = arg0(a)
     i = handle_index(it, arena, a[1], n)
     return Ref(Cell(arena.fields[0]), (i,))
+
+
+@model(r'^(std::vec::|alloc::vec::)?from_elem::<')
+def m_vec_from_elem(it, n, a):
+    """vec![elem; n]"""
+    cnt = conc_int(it, a[1], 'vec![x; n] length')
+    return VecV([clone_val(deref(a[0])) for _ in range(cnt)])
+
+
+@model(r'^UniqueArena::<.*>::get$')
+def m_unique_arena_get(it, n, a):
+    """handle of the arena element equal to the given value (derived Eq, decided element by element)"""
+    arena = arg0(a)
+    for i, item in enumerate(arena.fields[0].items):
+        if deep_eq(it, item, a[1]):
+            return some(i)
+    return none()
 
 
 @model(r'^(Arena|UniqueArena)::<.*>::(get_handle|try_get)$')
@@ -2454,7 +2484,13 @@ def m_str_pred(it, n, a):
     if isinstance(s, str) and isinstance(p, str):
         op = re.search(r'str>::(\w+)', n).group(1)
         return {'starts_with': s.startswith(p), 'ends_with': s.endswith(p), 'contains': p in s}[op]
-    return it.truth(it.fresh('string_predicate', 'bool'))
+    # abstract string: the answer is a decision of the solver, asked once per (predicate, string, pattern) on a path and NAMED after
+    # the question, so that a harness can build a concrete string satisfying the answers of a counterexample
+    op = re.search(r'str>::(\w+)', n).group(1)
+    key = (op, repr(s), repr(p))
+    if key not in it.strpred:
+        it.strpred[key] = it.fresh(f'strpred|{op}|{s!r}|{p!r}|', 'bool')
+    return it.truth(it.strpred[key])
 
 
 @model(r'str>::(to_string|to_owned)$|<&str as ToString>::to_string$')
@@ -2604,8 +2640,11 @@ def deep_eq(it, a, b):
                     return False
                 fa, fb = fields_of(a, na), fields_of(b, nb)
                 return len(fa) == len(fb) and all(deep_eq(it, x, y) for x, y in zip(fa, fb))
-        if a.variant != b.variant or len(a.fields) != len(b.fields):
-            return False
+        if a.disc is not None and b.disc is not None and not is_sym(a.disc) and not is_sym(b.disc):
+            if a.disc != b.disc or len(a.fields) != len(b.fields):        # same enum: the discriminant decides, whatever name each side carries
+                return False
+        elif (a.variant is not None and b.variant is not None and a.variant != b.variant) or len(a.fields) != len(b.fields):
+            return False            # (a struct value built by MIR carries its own name as "variant", one converted from the dump carries none)
         return all(deep_eq(it, x, y) for x, y in zip(a.fields, b.fields))
     if isinstance(a, VecV) and isinstance(b, VecV):
         return len(a.items) == len(b.items) and all(deep_eq(it, x, y) for x, y in zip(a.items, b.items))
@@ -2615,6 +2654,8 @@ def deep_eq(it, a, b):
         return a is b or (isinstance(a, Opaque) and isinstance(b, Opaque) and a.what == b.what)
     if is_sym(a) or is_sym(b):
         return it.truth(h_eq(a, b))
+    if isinstance(a, SymStr) or isinstance(b, SymStr):
+        return str_eq(it, a, b)
     return a == b
 
 
